@@ -31,3 +31,19 @@ package ccb
 //@   assert after call GenerateConnectID #1 fresh_id_per_request: [C20] true
 //@   assert before call dialStandard #1 uses_that_id: [C20] arg2 == connectID
 //@   assert before call dialProxy #1 uses_that_id: [C20] arg2 == connectID
+
+// ---- one writer at a time on the broker stream (C17) ------------------------------------------------
+// After registration the broker stream has one reader (serve) and several would-be writers (heartbeats, request results):
+// every write goes through writeToBroker, which writes only while holding writeMu.
+//@ func (*brokerReg).writeToBroker (r, ctx, ad) (err)
+//@   props C17
+//@   assert before call WriteControlAd #1 writes_under_the_write_lock: [C17] held(&r.writeMu) && arg1 == s
+//@ func (*brokerReg).heartbeatLoop (r, ctx)
+//@   props C17
+//@   nocall [C17] heartbeat_through_the_serialised_writer: WriteControlAd
+//@ func (*brokerReg).handleRequest (r, ctx, ad)
+//@   props C17
+//@   nocall [C17] result_through_the_serialised_writer: WriteControlAd
+//@ func (*brokerReg).serve (r, ctx)
+//@   props C17
+//@   nocall [C17] reader_does_not_write: WriteControlAd
